@@ -19,6 +19,21 @@ Gauss-Legendre area of the object's own __call__, the mean, invariance of
 differences at shared levels under refinement (and one common shift),
 monotonicity when the function is non-negative, the layout of the table
 against the view.
+History stage (runs first, before this process has built any specific-yield
+function): sequences of functions built one after the other in ONE process -
+spline sets sharing all knot levels / end levels / values and differing in the
+rest, PEATCLSM sets sharing (theta_s, b, psi_s) and differing in sd and vice
+versa - each pushed through compute_rise_curve on the SAME grid and mean, and,
+at command level, `spowtd simulate rise` run in-process one after the other on
+one database with parameter files differing only in sd / one soil parameter /
+the spline values.  Each curve must be the integral of the specific yield of
+ITS OWN parameters: differences against the area under the object's own
+__call__ and under a reference that knows nothing of the process (the exact
+not-a-knot spline from Fractions; the Dettmann-Bechtold profile of property
+C16 written from the equations, piecewise linear).  State carried from one
+function to the next (module-level memo, mutable default, id() reuse) shows up
+only there.  The case holds the sequence and everything built before it, so
+its replay rebuilds the history in a fresh process.
 """
 import io
 import math
@@ -33,6 +48,7 @@ from harness import dataset as D
 from harness import gen_spline as GS
 from harness import curves_common as CC
 from harness.props import c14 as P14
+from harness.props import c16 as P16
 
 PROP = 'C17'
 MODELS = ['Model/SimRiseFloat.vo']
@@ -469,6 +485,188 @@ def cl_empty(out, label):
     run_shards('cl_tab', [s], [dict(level='CL-empty')], out, label, 10)
 
 
+# ------------------------------------------------------------- history
+
+def fresh_sy(spec):
+    """A NEW object from the real factory (build_sy hands out one object per PEATCLSM parameter set)."""
+    import spowtd.specific_yield as sy
+    if spec['type'] == 'spline':
+        par = dict(type='spline', zeta_knots_mm=list(spec['knots']), sy_knots=list(spec['values']))
+    else:
+        par = dict(type='peatclsm', sd=spec['sd'], theta_s=spec['theta_s'], b=spec['b'], psi_s=spec['psi_s'])
+    return sy.create_specific_yield_function(par)
+
+
+def reference_sy(spec):
+    """(callable, break points) of the specific yield of these parameters, from the parameters alone."""
+    if spec['type'] == 'spline':
+        knots = [float(x) for x in spec['knots']]
+        return GS.reference_function(knots, [float(y) for y in spec['values']]), knots
+    zk, want = P16.db_profile({k: spec[k] for k in ('sd', 'theta_s', 'b', 'psi_s')}, 201)
+    zk, want = np.asarray(zk, dtype=float), np.asarray(want, dtype=float)
+    return (lambda x: float(np.interp(float(x), zk, want))), [float(z) for z in zk]
+
+
+def peat_spec(p):
+    return dict(type='peatclsm', **{k: float(P16.F(p[k])) for k in ('sd', 'theta_s', 'b', 'psi_s')})
+
+
+def short_spec(spec):
+    return {k: spec[k] for k in spec if k not in ('short', 'kind', 'place')}
+
+
+def history_cases(seed, tier):
+    cases = []
+    per_kind, npeat, ncli = (1, 2, 1) if tier == 'quick' else (6, 8, 4)
+    for k, kind in enumerate(GS.HISTORY_KINDS * per_kind):
+        rng = C.rng_for(seed, PROP, 'history', k)
+        seq = GS.history_sequence(rng, kind)
+        grid = GS.history_grid(rng, seq)
+        cases.append(dict(level='history', kind='spline:' + kind, keep=bool(k % 2), grid=grid,
+                          grid2=GS.refine(rng, grid), mean=rng.choice([0.0, 12.5, -40.0]),
+                          seq=[dict(type='spline', knots=m['knots'], values=m['values'], short=True) for m in seq]))
+    for k, pc in enumerate(P16.history_psets(seed, npeat)):
+        rng = C.rng_for(seed, PROP, 'history-peat', k)
+        lo, hi = -995.0 - rng.uniform(50, 300), 1005.0 + rng.uniform(50, 300)
+        grid = sorted({round((lo + (hi - lo) * i / 13) * 16) / 16 for i in range(14)} | {-995.0, 0.0, 1005.0})
+        cases.append(dict(level='history', kind='peatclsm:' + pc['kind'], keep=bool(k % 2), grid=grid,
+                          grid2=GS.refine(rng, grid), mean=rng.choice([0.0, 12.5, -40.0]),
+                          seq=[peat_spec(p) for p in pc['seq']]))
+    for k in range(ncli):
+        rng = C.rng_for(seed, PROP, 'history-cli', k)
+        while True:
+            saw = sawtooth(rng)
+            if saw['ds']['wl'][0][1] > -130.0:      # where the microtopography term matters
+                break
+        a = dict(type='peatclsm', **PEAT_PUBLISHED) if k == 0 else gen_peat(rng)
+        a2 = dict(a, sd=rng.choice([s for s in (0.05, 0.1, 0.3, 0.5) if s != a['sd']]))
+        a3 = dict(a, theta_s=rng.choice([t for t in (0.5, 0.7, 0.93) if t != a['theta_s']]))
+        ks = GS.history_sequence(rng, 'same-levels-ends-differ')
+        # placed by history_cli: lowest knot at a level one third up the measured curve (its lower part is
+        # extrapolated with the end value, which differs between these sets)
+        sp = [dict(type='spline', knots=m['knots'], values=m['values'], short=True, place='low-third') for m in ks[:3]]
+        cases.append(dict(level='CL-history', src=dict(kind='saw', saw=saw), seq=[a, a2, a, a3, a] + sp + sp[:1]))
+    return cases
+
+
+def history_curve(spec, obj, grid, mean, W, out, case, what):
+    """The curve against the object's own __call__ and against the reference of its own parameters."""
+    before = len(out.violations)
+    knots, _, _ = knots_of(spec, obj)
+    oracle_curve(obj, knots, grid, mean, W, out, case, what + ' (area under the object\'s own specific yield)')
+    if len(out.violations) == before:
+        ref, breaks = reference_sy(spec)
+        oracle_curve(ref, breaks, grid, mean, W, out, case,
+                     what + ' (area under the specific yield of its own parameters, computed from the parameters alone)')
+    return len(out.violations) == before
+
+
+def history_library(case, out):
+    import gc
+    kept, ok, prev = [], True, None
+    for n, spec in enumerate(case['seq']):
+        who = 'function number %d of a sequence built in one process (%s; earlier ones %s; built before it: %s), %s' % (
+            n + 1, case['kind'], 'kept alive' if case['keep'] else 'discarded', short_spec(prev) if prev else 'nothing',
+            short_spec(spec))
+        try:
+            obj = fresh_sy(spec)
+        except Exception as e:  # pylint: disable=broad-except
+            out.violation('oracle', '%s: the factory raises %s: %s' % (who, type(e).__name__, e), case=case)
+            return
+        out.count('history:functions')
+        out.count('history:%s:%s' % (case['kind'], 'kept' if case['keep'] else 'discarded'))
+        res = impl_curve(obj, case['grid'], case['mean'])
+        res2 = impl_curve(obj, case['grid2'], case['mean'])
+        out.evaluations += 2
+        if res[0] != 'ok' or res2[0] != 'ok':
+            out.violation('oracle', '%s: compute_rise_curve raised %s' % (who, res[1] if res[0] != 'ok' else res2[1]),
+                          case=case)
+            return
+        ok = (history_curve(spec, obj, case['grid'], case['mean'], res[1], out, case, who + ': compute_rise_curve')
+              and history_curve(spec, obj, case['grid2'], case['mean'], res2[1], out, case,
+                                who + ': compute_rise_curve (refined grid)'))
+        if ok:
+            out.nontriv(('h', n, json_key(spec), tuple(case['grid'])))
+        prev = spec
+        if case['keep']:
+            kept.append((n, spec, obj))
+        del obj
+        gc.collect()
+        if not ok:
+            return
+    for n, spec, obj in reversed(kept[:-1]):
+        out.count('history:used-again')
+        who = 'function number %d of a sequence of %d built in one process (%s), used again after all were built, %s' % (
+            n + 1, len(case['seq']), case['kind'], short_spec(spec))
+        res = impl_curve(obj, case['grid'], case['mean'])
+        out.evaluations += 1
+        if res[0] != 'ok':
+            out.violation('oracle', '%s: compute_rise_curve raised %s' % (who, res[1]), case=case)
+            return
+        if not history_curve(spec, obj, case['grid'], case['mean'], res[1], out, case, who + ': compute_rise_curve'):
+            return
+
+
+def json_key(spec):
+    return tuple(sorted((k, tuple(v) if isinstance(v, list) else v) for k, v in spec.items()))
+
+
+def history_cli(case, out):
+    """`spowtd simulate rise` for each parameter set in turn, in this process, on one database."""
+    try:
+        db, d = assemble(case['src'])
+    except RuntimeError as e:
+        out.count('history:cli-not-assembled')
+        out.notes.append('history: dataset not assembled: %s' % e)
+        return
+    view = sorted(read_view(db))
+    if len(view) < 2:
+        out.count('history:cli-short-view')
+        return
+    grid = [z for z, _ in view]
+    mean = math.fsum(s for _, s in view) / len(view)
+    hdr = ['Water level, mm', 'Measured storage, mm', 'Simulated storage, mm']
+    prev = None
+    for n, spec in enumerate(case['seq']):
+        if spec.get('place'):
+            shift = round((grid[len(grid) // 3] - spec['knots'][0]) * 8) / 8
+            spec = dict(spec, knots=[x + shift for x in spec['knots']])
+        who = '`spowtd simulate rise` run number %d in one process (parameter file before it: %s) with %s' % (
+            n + 1, short_spec(prev) if prev else 'none', short_spec(spec))
+        res = run_cli(db, d, spec, False)
+        out.evaluations += 1
+        out.count('history:cli-runs')
+        out.count('history:cli:%s' % spec['type'])
+        prev = spec
+        if res[0] != 'ok':
+            out.violation('oracle', '%s raised %s: %r on an assembled rise curve' % (who, res[1], res[2]), case=case)
+            return
+        table = res[1]
+        if (not isinstance(table, list) or not table or table[0] != hdr or any(len(r) != 3 for r in table[1:])
+                or [(float(r[0]), float(r[1])) for r in table[1:]] != view):
+            out.violation('oracle', '%s: the table does not list the levels and measured storage of the view '
+                          'average_rising_depth under the header row' % who, case=case)
+            return
+        ref, breaks = reference_sy(spec)
+        before = len(out.violations)
+        oracle_curve(ref, breaks, grid, mean, [float(r[2]) for r in table[1:]], out, case,
+                     who + ' (area under the specific yield of its own parameters, computed from the parameters alone)')
+        if len(out.violations) != before:
+            return
+        out.nontriv(('hc', n, json_key(spec), tuple(grid)))
+
+
+def check_history(cases, out):
+    for k, case in enumerate(cases):
+        if 'earlier' not in case:
+            # what this process built before this sequence belongs to the failing input
+            case = dict(case, earlier=[{f: c[f] for f in c if f != 'earlier'} for c in cases[:k]])
+        if case['level'] == 'history':
+            history_library(case, out)
+        else:
+            history_cli(case, out)
+
+
 # ------------------------------------------------------------- driver
 
 def gen_specs(rng, n):
@@ -491,6 +689,7 @@ def run(ctx, out):
     _PEAT_CACHE.clear()
     seed, tier = ctx['seed'], ctx['tier']
     rng = C.rng_for(seed, PROP)
+    check_history(history_cases(seed, tier), out)
     nfl = 100 if tier == 'quick' else 1000
     ncl = 24 if tier == 'quick' else 240
     specs = gen_specs(rng, nfl)
@@ -514,7 +713,11 @@ def run(ctx, out):
                 'knots, each with a refinement; CL: `spowtd simulate rise` with and without --observations on '
                 'datasets assembled through the CLI (planted-truth plans and sawtooth records), spline knots '
                 'placed to cover / end inside / lie beyond the measured curve, and PEATCLSM. Non-trivial: a '
-                'grid of >= 3 levels reaching outside the knot range; distinct by (object, grid).')
+                'grid of >= 3 levels reaching outside the knot range; distinct by (object, grid). History: '
+                'sequences of 3-5 functions built in one process (spline: eight kinds of sharing; PEATCLSM: same soil '
+                '/ different sd, same sd / one soil parameter changed) on one grid reaching beyond all knots, and '
+                '`simulate rise` run 9 times in-process on one database with parameter files differing in sd / '
+                'theta_s / spline end values.')
     out.samples = [dict(level='FL', spec=specs[0]), dict(level='CL', src_kind=srcs[0]['kind'])]
     out.assumptions += [
         'FITPACK is a Section variable with a tested contract in the wrapper theorems; the exact spline model '
@@ -530,6 +733,10 @@ def run(ctx, out):
 def replay(case, out):
     C.import_spowtd()
     _PEAT_CACHE.clear()
+    if case['level'] in ('history', 'CL-history'):
+        check_history([dict(c, earlier=[]) for c in case.get('earlier', [])], C.Outcome(PROP))   # rebuild the history
+        check_history([case], out)
+        return
     if case['level'] == 'FL':
         if not case['grid']:
             fl_errors(out, 'replay_err')
